@@ -365,9 +365,34 @@ pub fn run_check(ctx: &Ctx) -> i32 {
                 ctx.outcomes.insert(digest(&(enc.name(), r_enc(enc, &d.bytes))));
             }
         }
+        // every safe unit in every markup position at once (name, value, comment) with a fixed text
+        for u in &safe {
+            let nu: &[u8] = if u.iter().all(|b| *b != 0xFF && *b != 0xFE) { u } else { b"" };
+            for t in [&b"x"[..], u.as_slice()] {
+                let d = doc(nu, u, t, u, u);
+                let n = d.bytes.len();
+                let mut schedules: Vec<Vec<usize>> = (1..n).map(|c| vec![c]).collect();
+                for a in 1..n {
+                    for b in a + 1..n.min(a + 6) {
+                        schedules.push(vec![a, b]);
+                    }
+                }
+                for cuts in &schedules {
+                    let (m, calls) = check_strings(&p, &d, cuts);
+                    ctx.exec(calls);
+                    ctx.validated(1);
+                    ctx.states.insert(digest(&(enc.name(), &d.bytes, cuts)));
+                    if let Some(msg) = m {
+                        let case = json!({"kind": "strings", "encoding": enc.name(), "name_unit": hex(nu), "value_unit": hex(u), "t1": hex(t), "t2": hex(u), "c": hex(u), "cuts": cuts, "doc_lossy": lossy(&d.bytes)});
+                        let c2 = case.clone();
+                        ctx.violation(msg, case, &|| replay(&c2));
+                    }
+                }
+            }
+        }
         ctx.sample(json!({"encoding": enc.name(), "units": us.iter().map(|u| hex(u)).collect::<Vec<_>>()}));
     });
-    ctx.level_done("(a) 36 encodings x unit pairs x every 1-cut, 2-cuts in the first bytes, byte-wise");
+    ctx.level_done("(a) 36 encodings x unit pairs x every 1-cut, 2-cuts in the first bytes, byte-wise; every unit in name+value+comment position x every 1-cut and close 2-cuts");
     // long text
     par_for(encs.len(), 1, |ei| {
         let enc = encs[ei];
